@@ -25,9 +25,13 @@ RULE = ('(a) every registered definition x fillings x 4 modes (data through '
         'every context of the host chain before = after (also when the '
         'evaluation raises), mutating every container of the result leaves '
         'the data unchanged, no result container is identical to a host '
-        'container; (b) state machine: 12 statements x generated documents '
+        'container; (b) state machine: statements from a pool of 35 x generated documents '
         'evaluated in generated order in fresh children of one shared '
-        'parent; non-trivial: (a) the evaluation succeeded and a mutable '
+        'parent (a library context of the history\'s own); every outcome '
+        'is also compared with the statement parsed anew and evaluated '
+        'under a library and host chain nothing was evaluated under before; '
+        'raw-output probes over tuples holding mutable containers; '
+        'non-trivial: (a) the evaluation succeeded and a mutable '
         'container reached the payload; (b) a statement or the parent was '
         're-used >= 2 times; distinct = distinct case')
 ASSUMPTIONS = [
@@ -103,6 +107,14 @@ def host_function(x=0):
     return x
 
 
+def host_scratch(yaql_interface, value=0):
+    """a host extension that uses the documented yaql_interface parameter
+    and keeps a scratch variable through it: the variable lives in the
+    function's own call scope"""
+    yaql_interface['scratch'] = value
+    return yaql_interface('$scratch + 1')
+
+
 def make_host_chain(lib):
     """library -> host child with variables and a function -> evaluation ctx"""
     host = lib.create_child_context()
@@ -110,6 +122,7 @@ def make_host_chain(lib):
     host['$hostDict'] = {'k': [1, 2], 'd': {'x': 1}}
     host['$hostSet'] = {1, 2}
     host.register_function(host_function, name='hostFn')
+    host.register_function(host_scratch, name='hostScratch')
     return host, host.create_child_context()
 
 
@@ -321,6 +334,12 @@ POOL = [
     '$.nested.a.b', '$.nested.a.set(b, 0)', '$.items.memorize().len()',
     '$.items.distinct().orderBy($)', 'dict($.items.select([$, $]))',
     '$', '$1', '[$, 1]', 'coalesce($, none)',
+    # the two aggregator conventions of groupBy, in one history
+    '$.items.groupBy($ mod 2, $, [$[0], $[1].sum()])',
+    '$.items.groupBy($ mod 2, $, $.sum())',
+    '$.items.groupBy($ mod 2, $ * 2, $.len())',
+    # host extension with a scratch variable; $scratch is unknown outside
+    'hostScratch(4)', '[hostScratch($.items.len()), $scratch]', '$scratch',
 ]
 DOCS = [
     {'items': [3, 1, 2], 'd': {'k': [1], 'j': 2}, 'nested': {'a': {'b': [1]}}},
@@ -347,10 +366,36 @@ def bare_library():
     return ctx
 
 
+_PRISTINE = {}
+UNSTABLE = ('now(', 'random(')
+
+
+def _pristine_outcome(text, convert_input, di):
+    """the statement parsed anew and evaluated with the document under a
+    library and host chain nothing was ever evaluated under"""
+    if any(u in text for u in UNSTABLE):
+        return None
+    key = (text, convert_input, di)
+    if key not in _PRISTINE:
+        import yaql as _yaql
+        host, _ = make_host_chain(_yaql.create_context())
+        try:
+            _PRISTINE[key] = ('ok', common.snapshot(
+                _engine(convert_input)(text).evaluate(
+                    data=mutable(DOCS[di]),
+                    context=host.create_child_context())))
+        except Exception as e:   # noqa
+            _PRISTINE[key] = ('exc', type(e).__name__)
+    return _PRISTINE[key]
+
+
 def run_history(run, case):
     """case: {kind: history, steps: [[stmt index, doc index, raw?], ...]}"""
     bare = case.get('bare', False)
-    lib = bare_library() if bare else common.std_context()
+    # a library context of the history's own: whatever an evaluation leaves
+    # in the library's definitions starts from nothing in every history
+    import yaql as _yaql0
+    lib = bare_library() if bare else _yaql0.create_context()
     host, _ = make_host_chain(lib)
     engs = {True: _engine(True), False: _engine(False)}
     parsed = {}
@@ -421,6 +466,14 @@ def run_history(run, case):
         k2 = (key, di % len(DOCS))
         if bare:
             continue     # results are not finalised there (lazy objects)
+        exp = _pristine_outcome(text, not raw, di % len(DOCS))
+        if exp is not None and out != exp:
+            bad = ('evaluation-depends-on-history',
+                   '%s with document %d after %d earlier evaluations under '
+                   'the same prepared context: %r; in a context nothing was '
+                   'evaluated under before: %r' % (
+                       text, di % len(DOCS), len(seen), out, exp), text)
+            break
         if k2 in seen and seen[k2] != out:
             bad = ('re-evaluation-differs',
                    '%s with document %d: first %r, now %r' % (
